@@ -156,6 +156,10 @@ pub fn deviations(cfg: &Cfg, alpha: Alpha, g: &Getters, _st: &State, last_layer:
                 ops.push(Op::Ra(up(hi), false));
                 ops.push(Op::Ra(up(up(hi)), false));
                 ops.push(Op::Ra(f64::from_bits((cfg.ratio / cfg.max_rel).to_bits() - 1), false));
+                // one and three ulp away from the original ratio (in range): a change, however
+                // small - it has to be stored, and a reset has to undo it
+                ops.push(Op::Ra(up(cfg.ratio), false));
+                ops.push(Op::Ra(up(up(up(cfg.ratio))), true));
             }
         }
     }
@@ -166,6 +170,12 @@ pub fn deviations(cfg: &Cfg, alpha: Alpha, g: &Getters, _st: &State, last_layer:
     }
     ops.push(Op::Z);
     if alpha == Alpha::RatioRej {
+        // calls that switch every channel (or all but the first) off: they advance the stream and
+        // complete a pending ramp like any other call
+        ops.push(Op::PM(0, true));
+        if cfg.channels >= 2 {
+            ops.push(Op::PM(1, false));
+        }
         // (a buffer cannot be one frame short of nothing: then the call would be a valid one)
         if g.out_next >= 1 {
             ops.push(Op::Bad(Bad::OutShort(0, 1)));
